@@ -201,6 +201,13 @@ func (e *c14Env) execOut(tc *c14Case) (oracle, note string) {
 	if has("t-mid") {
 		tmid.Append("x-t-mid", "mid")
 	}
+	if has("many") {
+		// scale: 60 keys with two values each, in the headers and in the trailers
+		for i := 0; i < 60; i++ {
+			hmd.Append(fmt.Sprintf("x-m-%02d", i), fmt.Sprintf("a%d", i), fmt.Sprintf("b %d", i))
+			tmd.Append(fmt.Sprintf("x-n-%02d", i), fmt.Sprintf("c%d", i), fmt.Sprintf("d %d", i))
+		}
+	}
 	if has("look") {
 		// custom keys that merely look like protocol keys
 		hmd.Append("grpc-custom", "lc")
@@ -400,6 +407,20 @@ func c14InCases(thorough bool) []c14Case {
 			out = append(out, c14Case{Kind: "in", Proto: p, Shape: "unary", Headers: [][2]string{{name, "v1"}, {name, "v 2, with comma"}}})
 			out = append(out, c14Case{Kind: "in", Proto: p, Shape: "ss", Headers: [][2]string{{name, "b"}, {name, "a"}, {"x-other", "o"}}})
 		}
+		// scale: a 5 kB value, 50 values under one name, 60 names, -bin values of 3 kB and 70 kB
+		out = append(out, c14Case{Kind: "in", Proto: p, Shape: "unary", Headers: [][2]string{{"x-a", strings.Repeat("v, ", 1700)}}})
+		var fifty, sixty [][2]string
+		for i := 0; i < 50; i++ {
+			fifty = append(fifty, [2]string{"x-a", fmt.Sprintf("value %d", i)})
+		}
+		for i := 0; i < 60; i++ {
+			sixty = append(sixty, [2]string{fmt.Sprintf("x-k-%02d", i), fmt.Sprintf("v%d", i)})
+		}
+		out = append(out, c14Case{Kind: "in", Proto: p, Shape: "unary", Headers: fifty}, c14Case{Kind: "in", Proto: p, Shape: "ss", Headers: sixty})
+		for _, n := range []int{3000, 70000} {
+			out = append(out, c14Case{Kind: "in", Proto: p, Shape: "unary", Headers: [][2]string{{"x-b-bin", base64.StdEncoding.EncodeToString(c14Big(n))}}},
+				c14Case{Kind: "in", Proto: p, Shape: "unary", Headers: [][2]string{{"x-b-bin", base64.RawStdEncoding.EncodeToString(c14Big(n + 1))}}})
+		}
 		for _, name := range []string{"x-b-bin", "X-B-Bin"} {
 			for i, b := range bins {
 				if !thorough && p != "grpc" && i%3 != 0 {
@@ -416,6 +437,15 @@ func c14InCases(thorough bool) []c14Case {
 		}
 	}
 	return out
+}
+
+// c14Big is a deterministic byte string of n bytes covering every byte value.
+func c14Big(n int) []byte {
+	b := make([]byte, n)
+	for i := range b {
+		b[i] = byte(i*7 + 3)
+	}
+	return b
 }
 
 func c14OutCases(thorough bool) []c14Case {
@@ -450,6 +480,19 @@ func c14OutCases(thorough bool) []c14Case {
 						out = append(out, c14Case{Kind: "out", Proto: p, Shape: sh, Fail: fail, Items: s, ViaSend: via})
 					}
 				}
+			}
+		}
+	}
+	// scale: -bin values of 1.5 kB .. 70 kB (beyond fixed scratch buffers, one HTTP/2 frame, 64 KiB)
+	// and many keys, alone and together
+	for _, p := range []string{"grpc", "web", "webtext", "http", "grpc-gzip", "web-gzip"} {
+		for _, sh := range []string{"unary", "ss"} {
+			for _, fail := range []bool{false, true} {
+				for _, n := range []int{1500, 1800, 2100, 4096, 16384, 70000} {
+					out = append(out, c14Case{Kind: "out", Proto: p, Shape: sh, Fail: fail, Items: []string{"h-bin", "t-bin"}, Bin: c14Big(n), ViaSend: n%200 == 0})
+				}
+				out = append(out, c14Case{Kind: "out", Proto: p, Shape: sh, Fail: fail, Items: []string{"many"}},
+					c14Case{Kind: "out", Proto: p, Shape: sh, Fail: fail, Items: append([]string{"many"}, custom...), Bin: c14Big(3000), ViaSend: true})
 			}
 		}
 	}
@@ -491,7 +534,7 @@ func (e *c14Env) exec(tc *c14Case) (string, string) {
 
 func runC14(c *Ctx) {
 	r := c.Run
-	r.Rule("incoming: protocol{gRPC, gRPC-web, gRPC-web-text, HTTP} × header name{x-a, X-A, X-Mixed-Case, six names that are prefixes/suffixes/extensions of reserved keys} × 1..3 values; '-bin' names × every byte string of length <= 3 over {00,41,fb,ff} in padded and unpadded base64, alone and mixed; outgoing: protocol (plus gRPC and gRPC-web with gzip negotiated) × shape{unary, server-streaming} × outcome{ok, PermissionDenied} × SetHeader vs SendHeader × every subset of {two-valued header, -bin header, same key in header and trailer, two-valued trailer, -bin trailer, trailer set after the first reply, custom keys that look like protocol keys} plus each reserved key (content-type, grpc-status, grpc-message, grpc-encoding, grpc-status-details-bin, trailer) as header and as trailer, alone, with all custom items, and all at once; every case on a plain mux and on a mux with pass-through interceptors and a stats handler; distinct = (kind, protocol, shape, outcome, item set, mux options); thorough: incoming -bin values of length <= 4 over {00,41,fb,ff,3e,3f}, more header names, and every byte string of length <= 3 as outgoing -bin header and trailer value")
+	r.Rule("incoming: protocol{gRPC, gRPC-web, gRPC-web-text, HTTP} × header name{x-a, X-A, X-Mixed-Case, six names that are prefixes/suffixes/extensions of reserved keys} × 1..3 values; '-bin' names × every byte string of length <= 3 over {00,41,fb,ff} in padded and unpadded base64, alone and mixed; outgoing: protocol (plus gRPC and gRPC-web with gzip negotiated) × shape{unary, server-streaming} × outcome{ok, PermissionDenied} × SetHeader vs SendHeader × every subset of {two-valued header, -bin header, same key in header and trailer, two-valued trailer, -bin trailer, trailer set after the first reply, custom keys that look like protocol keys} plus each reserved key (content-type, grpc-status, grpc-message, grpc-encoding, grpc-status-details-bin, trailer) as header and as trailer, alone, with all custom items, and all at once; every case on a plain mux and on a mux with pass-through interceptors and a stats handler; distinct = (kind, protocol, shape, outcome, item set, mux options); scale: outgoing -bin values of 1.5 kB..70 kB, 60 keys × 2 values in headers and trailers, incoming 5 kB value, 50 values under one name, 60 names, -bin values of 3 kB / 70 kB; thorough: incoming -bin values of length <= 4 over {00,41,fb,ff,3e,3f}, more header names, and every byte string of length <= 3 as outgoing -bin header and trailer value")
 	r.Assume("http.Header canonicalises names as net/http does when parsing the wire", "trailers are demanded on gRPC and gRPC-web only")
 	cases := append(c14InCases(c.Thorough()), c14OutCases(c.Thorough())...)
 	// everything again on a mux with pass-through interceptors and a stats handler: options
